@@ -28,7 +28,37 @@ fn chain_stub() -> Vec<String> {
 	]
 }
 
+pub fn net_real() -> Vec<String> {
+	vec![
+		"E11 netsim cases: grin_p2p Peers, Peer (+ TrackingAdapter), Handshake, conn::listen reader/writer threads, Codec, Protocol, write_message - one real node's complete p2p stack over loopback sockets".into(),
+		"E11 netsim cases: grin_servers NetToChainAdapter, ChainToPoolAndNetAdapter, PoolToNetAdapter, PoolToChainAdapter, real TransactionPool and SyncState, wired as servers::Server::new wires them".into(),
+	]
+}
+
+pub fn net_stub() -> Vec<String> {
+	vec![
+		"E11 netsim cases: the remote peers (simulated: they own the other end of every socket, keep one message in flight and answer the node's requests by seeded policy)".into(),
+		"E11 netsim cases: p2p::Server accept/connect loops, the servers sync / seed / Dandelion monitor loops (not run: no timers in a netsim run)".into(),
+	]
+}
+
 pub fn spec(property: &str, tier: &str) -> Option<CheckSpec> {
+	let mut sp = spec_inner(property, tier)?;
+	if property == "C03" || property == "C06" {
+		sp.engine = "chainsim+netsim".to_string();
+		sp.rule.push_str("; every fourth case is an E11 netsim case: the same kind of world (real PoW, forks inside the horizon) reaches one real node through its real p2p stack from 2-3 simulated honest peers (inbound and outbound connections) and, when the world has invalid blocks, a byzantine one that comes back under a new address after every ban: header-first announcements, unsolicited compact and full blocks, children before parents, duplicates, reconnects, requests the peers leave unanswered; the node's own requests (compact block after a header, full block after a failed hydration, parent of an orphan) are answered by seeded policy. One message in flight (ping/pong barrier on every connection), so the event log is a function of the seed. Oracles per step: head is an accepted honest block of greatest total difficulty and its work never decreases; an orphaned block is connected once its parent is; invalid input leaves the state digest untouched and is never reported accepted; honest peers are never banned or disconnected; no node thread panics, no connection stalls. At quiescence (an honest peer offers the winning chain) head, roots and sizes equal a node that applied the winning chain alone and validate(false) passes");
+		sp.real_components.extend(net_real());
+		sp.stub_components.extend(net_stub());
+		sp.required_probes.push("netsim_runs".to_string());
+		sp.required_probes.push("net_final_head_is_winner".to_string());
+		if property == "C06" {
+			sp.required_probes.push("net_byzantine_peer_banned".to_string());
+		}
+	}
+	Some(sp)
+}
+
+fn spec_inner(property: &str, tier: &str) -> Option<CheckSpec> {
 	let quick = tier != "thorough";
 	let s = |engine: &str, level: &str, cases: u64, rule: &str, assumptions: Vec<&str>, probes: Vec<&str>| CheckSpec {
 		property: property.to_string(),
@@ -419,9 +449,15 @@ fn uses_twin(property: &str) -> bool {
 }
 
 pub fn build_world(property: &str, tier: &str, seed: u64) -> Result<World, String> {
+	build_world_with(property, tier, seed, |_| {})
+}
+
+/// Same as `build_world`, with the drawn configuration adjusted by the caller before generation.
+pub fn build_world_with(property: &str, tier: &str, seed: u64, tweak: impl FnOnce(&mut WorldCfg)) -> Result<World, String> {
 	let quick = tier != "thorough";
 	let mut r = SimRng::new(seed).fork("cfg");
-	let cfg = world_cfg_for(property, &mut r, quick);
+	let mut cfg = world_cfg_for(property, &mut r, quick);
+	tweak(&mut cfg);
 	let mut w = World::new(seed, cfg, &format!("{}-w", property));
 	w.generate_tree()?;
 	let (kinds, per) = bad_kinds_for(property, &mut r);
@@ -1096,6 +1132,14 @@ pub fn run_case(property: &str, tier: &str, seed: u64, case: u64) -> CaseResult 
 			// boundary) on every fourth case
 			if case % 4 == 3 {
 				crate::poolsim::case_c13(tier, seed, case)
+			} else {
+				chainsim_case(property, tier, seed, case)
+			}
+		}
+		"C03" | "C06" => {
+			// every fourth case delivers the world through the real p2p stack (E11 netsim)
+			if case % 4 == 3 {
+				crate::netsim::relay_case(property, tier, seed, case)
 			} else {
 				chainsim_case(property, tier, seed, case)
 			}
